@@ -1,6 +1,371 @@
-import XgiModel.C07.Copy
-import XgiModel.C07.Heap
-import XgiModel.Lemmas.HGAdd
+/-
+  C07 — Copies, pickles and network-to-network constructors are equal and independent.
+  Property theorems only.  Models: C07/Copy.lean (`HG.copy`, `HG.pickleRoundTrip`, `HG.ofNetwork` — the functions
+  Drivers/C07.lean runs against the real code) and C07/Heap.lean (mutable containers, reachability, writes).
+  Helper lemmas: C07/LemmasCopy.lean, C07/LemmasAttrs.lean, C07/LemmasHeap.lean.
+
+  Part 1 (equality, fresh IDs): for every state satisfying the invariant of C01 (`HG.Inv`: two-way incidence,
+  one attribute record per ID, counter above all integer edge IDs) whose attribute dicts are dicts
+  (`HG.AttrsOK`; both hold in every reachable state), each of the three clones shows the same network
+  (`HG.SameNet`), is unfrozen, satisfies the invariant again — so it keeps assigning fresh edge IDs — and
+  the call neither raises nor warns.
+  Part 2 (independence under all later histories): `frame` and its corollaries on the heap model.
+-/
+import XgiModel.C07.LemmasAttrs
+import XgiModel.C07.LemmasHeap
+import XgiModel.Props.C01
+
 namespace Xgi.C07
-theorem placeholder : True := trivial
+open Xgi Xgi.HG
+
+/-! ## Part 1 — the clone is the same network, well-formed, with a fresh counter -/
+
+/-! ### `Hypergraph.copy` -/
+
+/-- `copy()` returns normally: no exception, no "uid already exists" warning -/
+theorem copy_ok {s : HG} (h : Inv s) (ha : AttrsOK s) : (copy s).2 = .ok := by
+  rw [copy_eq]; exact (rebuild_char h.1 ha).1
+
+/-- the copy shows the same network: nodes and edges in the same order, the same members for every edge, the same
+    memberships for every node, the same attribute dict for every node / edge / the network; the **same
+    counter**; and it is not frozen (whatever the source is) -/
+theorem copy_snapshot {s : HG} (h : Inv s) (ha : AttrsOK s) :
+    SameNet s (copy s).1 ∧ (copy s).1.uid = s.uid ∧ (copy s).1.frozen = false := by
+  rw [copy_eq]
+  exact ⟨sameNet_of_edgeStage h.1 (rebuild_char h.1 ha).2 s.uid, rfl, (rebuild_char h.1 ha).2.frozen⟩
+
+/-- the copy satisfies the invariant again (two-way incidence, attribute records, counter above all integer IDs) -/
+theorem copy_inv {s : HG} (h : Inv s) (ha : AttrsOK s) : Inv (copy s).1 := by
+  have hs := copy_snapshot h ha
+  refine ⟨?_, fresh_of_subset h.2 (by rw [hs.1.edges]; exact fun _ x => x) (by rw [hs.2.1]; exact Nat.le_refl _)⟩
+  rw [copy_eq]; exact wf_with (rebuild_inv s).1 _ _
+
+/-- the copy's attribute dicts are dicts again -/
+theorem copy_attrs {s : HG} (ha : AttrsOK s) : AttrsOK (copy s).1 := by
+  rw [copy_eq]
+  have : AttrsOK (rebuild s).1 := by
+    unfold rebuild
+    exact andThen_inv AttrsOK _ _ (addNodesFrom_attrs attrsOK_empty _ _) (fun t ht => addEdgesFrom_attrs ht _ _ _)
+  exact ⟨this.nattr, this.eattr, ha.net⟩
+
+/-- both sides keep assigning fresh edge IDs: on the source and on the copy the next automatic ID is not an
+    existing edge ID, and it is the same number on both sides -/
+theorem copy_fresh {s : HG} (h : Inv s) (ha : AttrsOK s) :
+    PyId.int s.uid ∉ s.edges ∧ PyId.int (copy s).1.uid ∉ (copy s).1.edges ∧ (copy s).1.uid = s.uid :=
+  ⟨uid_not_mem h.2, uid_not_mem (copy_inv h ha).2, (copy_snapshot h ha).2.1⟩
+
+/-! ### pickle round trip -/
+
+/-- the unpickled network shows the same network, has the same counter, and is not frozen -/
+theorem pickle_snapshot {s : HG} (h : Inv s) :
+    SameNet s (pickleRoundTrip s) ∧ (pickleRoundTrip s).uid = s.uid ∧ (pickleRoundTrip s).frozen = false := by
+  obtain ⟨p1, p2, p3, p4, p5, p6, p7, p8, p9, p10, p11⟩ := pickle_char s
+  refine ⟨⟨p1, p2, ?_, ?_, ?_, ?_, ?_, ?_, p5⟩, p6, p7⟩
+  · intro e he x; rw [p9 e he]
+  · intro n hn e; rw [p8 n hn]
+  · intro n hn; exact p10 n ((h.1.attrN n).mpr hn)
+  · intro e he; exact p11 e ((h.1.attrE e).mpr he)
+  · intro n; rw [p3]
+  · intro e; rw [p4]
+
+theorem pickle_inv {s : HG} (h : Inv s) : Inv (pickleRoundTrip s) := by
+  have hs := pickle_snapshot h
+  exact ⟨pickle_wf h.1, fresh_of_subset h.2 (by rw [hs.1.edges]; exact fun _ x => x) (by rw [hs.2.1]; exact Nat.le_refl _)⟩
+
+theorem pickle_fresh {s : HG} (h : Inv s) :
+    PyId.int (pickleRoundTrip s).uid ∉ (pickleRoundTrip s).edges ∧ (pickleRoundTrip s).uid = s.uid :=
+  ⟨uid_not_mem (pickle_inv h).2, (pickle_snapshot h).2.1⟩
+
+/-! ### `Hypergraph(H, **attr)` -/
+
+theorem ofNetwork_ok {s : HG} (h : Inv s) (ha : AttrsOK s) (attr : Attrs) : (ofNetwork s attr).2 = .ok := by
+  rw [ofNetwork_eq]; exact (rebuild_char h.1 ha).1
+
+/-- the constructed network shows the same network (network attributes: the source's, updated with the keyword
+    arguments; with none given, the source's) and is not frozen -/
+theorem ofNetwork_snapshot {s : HG} (h : Inv s) (ha : AttrsOK s) :
+    SameNet s (ofNetwork s).1 ∧ (ofNetwork s).1.frozen = false ∧
+    ∀ attr, (ofNetwork s attr).1 = { (ofNetwork s).1 with net := s.net.update attr } := by
+  refine ⟨?_, ?_, fun attr => rfl⟩
+  · have := sameNet_of_edgeStage h.1 (rebuild_char h.1 ha).2 (rebuild s).1.uid
+    exact this
+  · exact (rebuild_char h.1 ha).2.frozen
+
+/-- the counter is **not** copied by the constructor; what the code guarantees is that it is the *least* admissible
+    one: above every integer edge ID (so automatic IDs are fresh) and not above any other such bound — in
+    particular never above the source's counter -/
+theorem ofNetwork_uid {s : HG} (h : Inv s) (ha : AttrsOK s) (attr : Attrs) :
+    UidFresh (ofNetwork s attr).1 ∧
+    (∀ k : Nat, (∀ i : Int, PyId.int i ∈ s.edges → i < (k : Int)) → (ofNetwork s attr).1.uid ≤ k) ∧
+    (ofNetwork s attr).1.uid ≤ s.uid := by
+  have hst := (rebuild_char h.1 ha).2
+  have hfresh : UidFresh (ofNetwork s attr).1 := by
+    rw [ofNetwork_eq]; exact (rebuild_inv s).2
+  have hleast : ∀ k : Nat, (∀ i : Int, PyId.int i ∈ s.edges → i < (k : Int)) → (ofNetwork s attr).1.uid ≤ k := by
+    intro k hk
+    rw [ofNetwork_eq]
+    show (rebuild s).1.uid ≤ k
+    rcases hst.tight with h0 | ⟨i, hi, hiu⟩
+    · omega
+    · rw [hst.edges] at hi; have := hk i hi; omega
+  exact ⟨hfresh, hleast, hleast s.uid h.2⟩
+
+theorem ofNetwork_inv {s : HG} (h : Inv s) (ha : AttrsOK s) (attr : Attrs) : Inv (ofNetwork s attr).1 := by
+  refine ⟨?_, (ofNetwork_uid h ha attr).1⟩
+  rw [ofNetwork_eq]
+  have := wf_with (rebuild_inv s).1 (s.net.update attr) (rebuild s).1.uid
+  exact this
+
+/-- both sides keep assigning fresh edge IDs (the two next IDs may differ) -/
+theorem ofNetwork_fresh {s : HG} (h : Inv s) (ha : AttrsOK s) (attr : Attrs) :
+    PyId.int s.uid ∉ s.edges ∧ PyId.int (ofNetwork s attr).1.uid ∉ (ofNetwork s attr).1.edges :=
+  ⟨uid_not_mem h.2, uid_not_mem (ofNetwork_inv h ha attr).2⟩
+
+/-! ### consequences for every network that can be built, and for everything done afterwards -/
+
+/-- attribute dicts stay dicts under every public call (returning or raising) -/
+theorem C07_step_attrs {s : HG} (h : AttrsOK s) (op : Op) (r : HG × Outcome) (hr : step s op = some r) : AttrsOK r.1 :=
+  step_attrs h op r hr
+
+/-- every state reachable from the empty hypergraph meets the hypotheses of the theorems above -/
+theorem C07_reachable {s : HG} (h : C01.Reachable s) : Inv s ∧ AttrsOK s := by
+  induction h with
+  | empty => exact ⟨empty_inv, attrsOK_empty⟩
+  | step _ hr ih => exact ⟨step_inv ih.1 _ _ hr, step_attrs ih.2 _ _ hr⟩
+
+/-- … so for every reachable network all three clones show the same network, and each clone is again a state
+    in which the invariant holds: every later history on either side (C01_history) keeps both well-formed,
+    and every later addition keeps the existing edges of that side (C04, `Keeps`) -/
+theorem C07_clones {s : HG} (h : C01.Reachable s) :
+    (SameNet s (copy s).1 ∧ Inv (copy s).1 ∧ AttrsOK (copy s).1) ∧
+    (SameNet s (pickleRoundTrip s) ∧ Inv (pickleRoundTrip s)) ∧
+    (SameNet s (ofNetwork s).1 ∧ Inv (ofNetwork s).1) := by
+  obtain ⟨hi, ha⟩ := C07_reachable h
+  exact ⟨⟨(copy_snapshot hi ha).1, copy_inv hi ha, copy_attrs ha⟩, ⟨(pickle_snapshot hi).1, pickle_inv hi⟩,
+         ⟨(ofNetwork_snapshot hi ha).1, ofNetwork_inv hi ha []⟩⟩
+
+/-- after the clone, an `add_edge` (automatic or explicit ID, returning / warning / raising) on the clone keeps every
+    edge the clone had: position, members, attributes — the clone never overwrites what it copied -/
+theorem C07_clone_adds_keep {s : HG} (h : Inv s) (ha : AttrsOK s) (ms : List PyId) (idx : Option PyId) (a : Attrs) :
+    Keeps (copy s).1 (addEdge (copy s).1 ms idx a).1 ∧
+    Keeps (pickleRoundTrip s) (addEdge (pickleRoundTrip s) ms idx a).1 ∧
+    Keeps (ofNetwork s).1 (addEdge (ofNetwork s).1 ms idx a).1 :=
+  ⟨addEdge_keeps (copy_inv h ha) ms idx a, addEdge_keeps (pickle_inv h) ms idx a,
+   addEdge_keeps (ofNetwork_inv h ha []) ms idx a⟩
+
+/-! ## Part 2 — independence: object graphs without a common mutable container -/
+
+open Xgi.Heap
+variable {π : Type}
+
+/-- **frame.**  `A` and `B` live in a closed heap and reach no common cell.  Then for *every* write sequence
+    executed through `A` (writes to cells reachable from `A` or from what the sequence itself allocated, storing
+    only such references): every cell reachable from `B` keeps its content, `B` reaches exactly the same cells,
+    and the separation holds again for `A` plus its new locals — so the argument can be repeated for whatever
+    is done next, on either side. -/
+theorem frame {h : Heap π} {A B : List Nat} (hs : Sep h A B) (ws : List (Write π)) (hw : Through h A ws) :
+    (∀ b, Reach h B b → execAll h ws b = h b) ∧
+    (∀ b, Reach (execAll h ws) B b ↔ Reach h B b) ∧
+    Sep (execAll h ws) (rootsAfter A ws) B := by
+  induction ws generalizing h A with
+  | nil => exact ⟨fun _ _ => rfl, fun _ => Iff.rfl, hs⟩
+  | cons w ws ih =>
+    obtain ⟨hok, hrest⟩ := hw
+    obtain ⟨s1, s2, s3⟩ := sep_step hs w hok
+    obtain ⟨i1, i2, i3⟩ := ih s3 hrest
+    refine ⟨?_, ?_, i3⟩
+    · intro b hb
+      show execAll (w.exec h) ws b = h b
+      rw [i1 b ((s2 b).mpr hb), s1 b hb]
+    · intro b
+      show Reach (execAll (w.exec h) ws) B b ↔ Reach h B b
+      rw [i2 b, s2 b]
+
+/-- after the sequence the two reach sets are still disjoint -/
+theorem frame_disjoint {h : Heap π} {A B : List Nat} (hs : Sep h A B) (ws : List (Write π)) (hw : Through h A ws) :
+    ∀ a, Reach (execAll h ws) A a → ¬ Reach (execAll h ws) B a :=
+  fun a ha => (frame hs ws hw).2.2.disj a (reach_mono_roots (roots_sub_after A ws) ha)
+
+/-- what any observer sees from a cell reachable from `B`, to any depth, is unchanged -/
+theorem frame_view {h : Heap π} {A B : List Nat} (hs : Sep h A B) (ws : List (Write π)) (hw : Through h A ws)
+    (n b : Nat) (hb : Reach h B b) : view (execAll h ws) n b = view h n b :=
+  view_agree (frame hs ws hw).1 n b hb
+
+/-- edits on **either** side, interleaved in any order: the separation is never lost -/
+theorem frame_interleaved {h : Heap π} {A B : List Nat} (hs : Sep h A B) (ws : List (Side × Write π))
+    (hw : Through2 h A B ws) :
+    Sep (execAll2 h ws) (rootsAfter2 .A A ws) (rootsAfter2 .B B ws) := by
+  induction ws generalizing h A B with
+  | nil => exact hs
+  | cons p ws ih =>
+    obtain ⟨sd, w⟩ := p
+    cases sd with
+    | A =>
+      obtain ⟨hok, hrest⟩ := hw
+      have := ih (sep_step hs w hok).2.2 hrest
+      simpa [execAll2, rootsAfter2] using this
+    | B =>
+      obtain ⟨hok, hrest⟩ := hw
+      have := ih (sep_step hs.symm w hok).2.2.symm hrest
+      simpa [execAll2, rootsAfter2] using this
+
+/-- **non-interference.**  In any interleaving of edits through `A` and through `B`, the edits of `B` alone are an
+    admissible history from the initial heap, and everything `B` (with its locals) reaches at the end has exactly
+    the content it would have had if `A`'s edits had never happened. -/
+theorem noninterference {h : Heap π} {A B : List Nat} (hs : Sep h A B) (ws : List (Side × Write π))
+    (hw : Through2 h A B ws) :
+    Through h B (only .B ws) ∧
+    ∀ b, Reach (execAll2 h ws) (rootsAfter2 .B B ws) b → execAll h (only .B ws) b = execAll2 h ws b := by
+  -- generalised: `g` is the heap in which only B's writes happen
+  suffices key : ∀ (ws : List (Side × Write π)) (h g : Heap π) (A B : List Nat), Sep h A B → Through2 h A B ws →
+      (∀ b, Reach h B b → g b = h b) → (∀ a, h a = none → g a = none) →
+      Through g B (only .B ws) ∧
+      ∀ b, Reach (execAll2 h ws) (rootsAfter2 .B B ws) b → execAll g (only .B ws) b = execAll2 h ws b from
+    key ws h h A B hs hw (fun _ _ => rfl) (fun _ x => x)
+  intro ws
+  induction ws with
+  | nil => intro h g A B _ _ hag _; exact ⟨trivial, fun b hb => hag b hb⟩
+  | cons p ws ih =>
+    intro h g A B hs hw hag hfr
+    obtain ⟨sd, w⟩ := p
+    cases sd with
+    | A =>
+      obtain ⟨hok, hrest⟩ := hw
+      obtain ⟨s1, s2, s3⟩ := sep_step hs w hok
+      have hag' : ∀ b, Reach (w.exec h) B b → g b = w.exec h b := by
+        intro b hb
+        have hb' := (s2 b).mp hb
+        rw [s1 b hb']; exact hag b hb'
+      have hfr' : ∀ a, w.exec h a = none → g a = none := by
+        intro a ha
+        apply hfr
+        cases w <;> simp only [Write.exec, upd_apply] at ha <;> split at ha <;> first | cases ha | exact ha
+      have := ih (w.exec h) g (w.roots A) B s3 hrest hag' hfr'
+      simpa [only, execAll2, rootsAfter2] using this
+    | B =>
+      obtain ⟨hok, hrest⟩ := hw
+      have hreach : ∀ x, Reach g B x ↔ Reach h B x := reach_of_agree hag
+      have hokg : w.Ok g B := by
+        cases w with
+        | set a c =>
+          obtain ⟨o1, o2, o3⟩ := hok
+          exact ⟨(hreach a).mpr o1, by rw [hag a o1]; exact o2, fun b hb => (hreach b).mpr (o3 b hb)⟩
+        | alloc a c =>
+          obtain ⟨o1, o2⟩ := hok
+          exact ⟨hfr a o1, fun b hb => (hreach b).mpr (o2 b hb)⟩
+      obtain ⟨_, _, s3⟩ := sep_step hs.symm w hok
+      have hsomeB : ∀ x, Reach h B x → (h x).isSome := fun x hx => reach_isSome hs.closed hs.allocB hx
+      have hag' : ∀ b, Reach (w.exec h) (w.roots B) b → w.exec g b = w.exec h b := by
+        intro b hb
+        cases w with
+        | set a c =>
+          simp only [Write.exec, Write.roots, upd_apply] at hb ⊢
+          split
+          · rfl
+          · exact hag b (reach_set_sub hok.2.2 hb)
+        | alloc a c =>
+          simp only [Write.exec, Write.roots, upd_apply] at hb ⊢
+          split
+          · rfl
+          · rename_i hne
+            have hfresh : ∀ x, Reach h B x → x ≠ a := by
+              intro x hx hxa
+              have := hsomeB x hx
+              rw [hxa, hok.1] at this; cases this
+            rcases reach_alloc_sub hok.2 hfresh hb with hx | hx
+            · exact absurd hx hne
+            · exact hag b hx
+      have hfr' : ∀ a, w.exec h a = none → w.exec g a = none := by
+        intro a ha
+        cases w <;> simp only [Write.exec, upd_apply] at ha ⊢ <;> split at ha <;>
+          first | cases ha | (rename_i hne; rw [if_neg hne]; exact hfr a ha)
+      have := ih (w.exec h) (w.exec g) A (w.roots B) s3.symm hrest hag' hfr'
+      refine ⟨?_, ?_⟩
+      · show Through g B (w :: only .B ws)
+        exact ⟨hokg, this.1⟩
+      · simpa [only, execAll2, rootsAfter2, execAll] using this.2
+
+/-- the separation certificate evaluated by the driver on the object graph extracted from Python is sound:
+    it establishes the hypothesis of `frame` for that heap -/
+theorem checkSep_sound {l : List (Nat × Cell π)} {A B SA SB : List Nat} (hc : checkSep l A B SA SB = true) :
+    Sep (ofList l) A B := sep_of_checkSep hc
+
+/-- histories executed inside the model end in reachable states (used by the examples below) -/
+theorem C07_reachable_of_run {s s' : HG} (h : C01.Reachable s) (ops : List Op) (hr : C01.run s ops = some s') :
+    C01.Reachable s' := by
+  induction ops generalizing s with
+  | nil => simp [C01.run] at hr; subst hr; exact h
+  | cons op ops ih =>
+    simp only [C01.run] at hr
+    split at hr
+    · cases hr
+    · rename_i r hs; exact ih (.step h hs) hr
+
+/-! ## non-vacuity: concrete networks and heaps meet the hypotheses; the conclusions are what one computes -/
+
+/-- isolated node with a nested attribute value, explicit IDs 5 and 0, an empty edge, a removal (so the counter is
+    above every remaining ID), a network attribute -/
+private def ops0 : List Op :=
+  [ .addNodesFrom [(.str "iso", some [("a", .sc (.opaque "[1, {\"s\": [1, 2]}]"))])] [],
+    .addEdgesFrom .f4 [{ members := [.int 1, .int 2], idx := some (.int 5), attr := [("w", .sc (.opaque "[1]"))] },
+                       { members := [], idx := some (.int 0), attr := [] },
+                       { members := [.int 2, .str "x"], idx := some (.int 3), attr := [("c", .sc (.str "r"))] }] [],
+    .removeEdge (.int 5),
+    .setNetAttr "name" (.sc (.opaque "{\"x\": [1]}")),
+    .freeze ]
+private def s0 : HG := (C01.run HG.empty ops0).getD HG.empty
+
+example : (C01.run HG.empty ops0).isSome = true := by decide
+example : C01.Reachable s0 := by
+  apply C07_reachable_of_run .empty ops0
+  have h : (C01.run HG.empty ops0).isSome = true := by decide
+  unfold s0
+  cases hr : C01.run HG.empty ops0 with
+  | none => rw [hr] at h; cases h
+  | some x => rfl
+example : s0.nodes = [.str "iso", .int 1, .int 2, .str "x"] ∧ s0.edges = [.int 0, .int 3] ∧ s0.uid = 6 ∧ s0.frozen = true := by
+  decide
+example : (copy s0).2 = .ok ∧ (copy s0).1.nodes = s0.nodes ∧ (copy s0).1.edges = s0.edges ∧ (copy s0).1.uid = 6 ∧
+    (copy s0).1.mem (.int 3) = [.int 2, .str "x"] ∧ (copy s0).1.memb (.int 2) = [.int 3] ∧
+    (copy s0).1.nattr (.str "iso") = s0.nattr (.str "iso") ∧ (copy s0).1.net = s0.net ∧ (copy s0).1.frozen = false := by
+  decide
+/-- the constructor does not copy the counter: 4 on the clone, 6 on the source — both fresh -/
+example : (ofNetwork s0).2 = .ok ∧ (ofNetwork s0).1.edges = s0.edges ∧ (ofNetwork s0).1.uid = 4 ∧ s0.uid = 6 := by decide
+example : (pickleRoundTrip s0).edges = s0.edges ∧ (pickleRoundTrip s0).uid = 6 ∧ (pickleRoundTrip s0).frozen = false ∧
+    (pickleRoundTrip s0).eattr (.int 3) = [("c", .sc (.str "r"))] := by decide
+/-- an automatic addition on the clone and one on the source pick IDs that are new on their own side -/
+example : ((addEdge (ofNetwork s0).1 [.int 7] none []).1.edges = [.int 0, .int 3, .int 4]) ∧
+    ((addEdge (copy s0).1 [.int 7] none []).1.edges = [.int 0, .int 3, .int 6]) := by decide
+
+/-- two object graphs without a common cell: `0 → {1, 2}, 2 → 1` and `10 → 11` -/
+private def cells0 : List (Nat × Cell Nat) :=
+  [(0, ⟨[1, 2], 0⟩), (1, ⟨[], 5⟩), (2, ⟨[1], 0⟩), (10, ⟨[11], 0⟩), (11, ⟨[], 5⟩)]
+example : checkSep cells0 [0] [10] [0, 1, 2] [10, 11] = true := by decide
+example : Sep (ofList cells0) [0] [10] := checkSep_sound (SA := [0, 1, 2]) (SB := [10, 11]) (by decide)
+/-- through `A`: create a new container 3 that refers to 1, then store it in container 2, then change 1 -/
+private def ws0 : List (Write Nat) := [.alloc 3 ⟨[1], 9⟩, .set 2 ⟨[3, 1], 0⟩, .set 1 ⟨[], 6⟩]
+example : Through (ofList cells0) [0] ws0 := by
+  have r1 : Reach (ofList cells0) [0] 1 :=
+    .step (.root (List.mem_singleton.mpr rfl)) (rfl : ofList cells0 0 = some ⟨[1, 2], 0⟩) (by simp)
+  refine ⟨⟨rfl, ?_⟩, ⟨?_, rfl, ?_⟩, ⟨?_, rfl, ?_⟩, trivial⟩
+  · intro b hb; simp only [List.mem_singleton] at hb; subst hb; exact r1
+  · exact .step (.root (by simp [Write.roots])) (rfl : Write.exec (ofList cells0) (.alloc 3 ⟨[1], 9⟩) 0 = some ⟨[1, 2], 0⟩) (by simp)
+  · intro b hb
+    simp only [List.mem_cons, List.not_mem_nil, or_false] at hb
+    rcases hb with hb | hb
+    · subst hb; exact .root (by simp [Write.roots])
+    · subst hb
+      exact .step (.root (by simp [Write.roots])) (rfl : Write.exec (ofList cells0) (.alloc 3 ⟨[1], 9⟩) 3 = some ⟨[1], 9⟩) (by simp)
+  · exact .step (.root (by simp [Write.roots]))
+      (rfl : Write.exec (Write.exec (ofList cells0) (.alloc 3 ⟨[1], 9⟩)) (.set 2 ⟨[3, 1], 0⟩) 3 = some ⟨[1], 9⟩) (by simp)
+  · intro b hb; cases hb
+example : execAll (ofList cells0) ws0 1 = some ⟨[], 6⟩ ∧ execAll (ofList cells0) ws0 11 = some ⟨[], 5⟩ := by decide
+
+/-- the hypothesis is needed: when the two graphs share cell 1, a write through `A` is seen from `B` -/
+private def cellsShared : List (Nat × Cell Nat) := [(0, ⟨[1], 0⟩), (1, ⟨[], 5⟩), (10, ⟨[1], 0⟩)]
+example : checkSep cellsShared [0] [10] [0, 1] [10, 1] = false := by decide
+example : Reach (ofList cellsShared) [10] 1 ∧
+    execAll (ofList cellsShared) [.set 1 ⟨[], 6⟩] 1 ≠ ofList cellsShared 1 := by
+  refine ⟨.step (.root (List.mem_singleton.mpr rfl)) (rfl : ofList cellsShared 10 = some ⟨[1], 0⟩) (by simp), by decide⟩
+
 end Xgi.C07
